@@ -203,6 +203,14 @@ Plan shrink_plan(const Plan &orig, const FailPred &pred, int max_reruns, int *re
                                 progress = true;
                         }
                 }
+                if (cur.other) {
+                        Plan c = cur;
+                        c.other = false;
+                        if (S.test(c)) {
+                                cur = c;
+                                progress = true;
+                        }
+                }
                 if (cur.observe) {
                         Plan c = cur;
                         c.observe = false;
